@@ -98,6 +98,11 @@ func scenC06(r *Run, job *Job) {
 		r.ReorderNum, r.ReorderDen = 1, 2
 	}
 	timeout := 30
+	if t.Chance(1, 4) {
+		// the platform's own failure report (the goroutine that answers the caller with the error and reports the
+		// invocation done) is descheduled at one of its steps
+		r.AddHold([]string{"getCachedInitErrorResponse", "trySendDefaultErrorResponse", "Server).SendErrorResponse"}[t.Draw(3)], 1+t.Draw(2), 1+t.Draw(3))
+	}
 	w := r.NewWorld(WorldCfg{TimeoutSec: timeout, ExtFiles: ExtFiles(exts)}, job.Seed)
 	e := w.NewEngine()
 	e.Bound = 200 * time.Second
